@@ -298,6 +298,15 @@ class GridWeighted(Grid):
         # The weighted grid points depend on the weights
         self._cache['gridptsw'][:] = []
 
+    def bumps(self, num_bumps, **kwargs):
+        """ Generates arbitrary bumps (i.e. hills) on the 2-dimensional grid.
+
+        Please see :py:meth:`.Grid.bumps` for the details and the keyword arguments.
+        """
+        super(GridWeighted, self).bumps(num_bumps, **kwargs)
+        # The weighted grid points depend on the grid points
+        self._cache['gridptsw'][:] = []
+
     def reset(self):
         """ Resets the grid. """
         super(GridWeighted, self).reset()
